@@ -1,2 +1,8 @@
 // Package props links every property's machinery into the runner.
 package props
+
+import "verif/lib/fw"
+
+// deepCase: in the thorough tier one case in four is drawn with larger bounds (deeper and wider values, larger
+// graphs, longer selectors, more types); the quick tier never is, so its case list is unaffected.
+func deepCase(c *fw.Ctx, i int) bool { return c.Tier == "thorough" && i%4 == 1 }
